@@ -6,6 +6,7 @@ import re
 
 from vlib import metagram
 from vlib.core import REPO, AnalysisError, Report
+from vlib.match import X, atoms, concat_parts, nodes
 from vlib.srcindex import SourceIndex, attr_chain
 
 LEVEL = 'translation_validation'
@@ -124,32 +125,31 @@ def rule_groups(rep: Report, idx, gram_rules_by) -> None:
 		w(rule[1][2])
 		return out
 	if opt is None or rp is None or strings(opt) != ['[', ']'] or strings(rp) != ['(', ')']:
-		r.undecided('reader-forms', ('data/syntax/gram.lark', 1), 'gram.lark no longer defines expr_opt := "[" expr "]" / expr_rep := "(" expr ")" [repeat]')
+		r.skip('reader-forms', ('data/syntax/gram.lark', 1), 'gram.lark no longer defines expr_opt := "[" expr "]" / expr_rep := "(" expr ")" [repeat]')
 		return
 	repeat_optional = any(e[0] == 'expr_opt' for e in rp[1][2][1]) if rp[1][2][0] == 'terms' else False
 	branches = {}
-	cur = next((s_ for s_ in f.node.body if isinstance(s_, ast.If)), None)
-	while isinstance(cur, ast.If):
-		member = unparse(cur.test.comparators[0]).split('.')[-1] if isinstance(cur.test, ast.Compare) else '?'
-		ret = next((x for x in ast.walk(ast.Module(body=cur.body, type_ignores=[])) if isinstance(x, ast.Return)), None)
-		branches[member] = ret
-		nxt = cur.orelse
-		if len(nxt) == 1 and isinstance(nxt[0], ast.If):
-			cur = nxt[0]
-		else:
-			ret = next((x for x in ast.walk(ast.Module(body=nxt, type_ignores=[])) if isinstance(x, ast.Return)), None)
-			branches['<else>'] = ret
-			cur = None
+	fx = X(f)
+	rparam = f.params()[-1]
+	for ret in nodes(fx, ast.Return):
+		if ret.value is None:
+			continue
+		pos = [unparse(a.comparators[0]).split('.')[-1] for a, p_ in atoms(fx, ret) if p_ and isinstance(a, ast.Compare) and len(a.ops) == 1 and isinstance(a.ops[0], (ast.Eq, ast.Is)) and unparse(a.left) == rparam]
+		branches[pos[0] if len(pos) == 1 else '<else>' if not pos else '?'] = ret
 	def form(ret) -> str:
 		v = ret.value if ret is not None else None
 		if isinstance(v, ast.Name):
 			return 'bare'
-		if isinstance(v, ast.JoinedStr):
-			txt = ''.join(x.value if isinstance(x, ast.Constant) else '{}' for x in v.values)
-			return txt
+		parts = concat_parts(v) if v is not None else []
+		if parts and any(k == 'const' for k, _ in parts):
+			return ''.join(str(t) if k == 'const' else '{}' for k, t in parts)
 		return '?'
 	forms = {k: form(v) for k, v in branches.items()}
 	where = f.where
+	if '?' in set(forms.values()) - {forms.get('NoRepeat')} or 'OneOrEmpty' not in forms or '<else>' not in forms:
+		r.skip('forms', where, f'_deco_repeat no longer returns one bracket form per repeat kind (recognised: {forms})')
+		r.floor = 1
+		return
 	r.check(forms.get('OneOrEmpty') == '[{}]', 'OneOrEmpty', where, f'one-or-empty groups are printed as `{forms.get("OneOrEmpty")}`; the meta-grammar reads them as [x]')
 	r.check(forms.get('<else>') == '({}){}', 'repeated', where, f'repeated groups are printed as `{forms.get("<else>")}`; the meta-grammar reads them as (x) followed by * + or ?')
 	if repeat_optional:
